@@ -126,6 +126,11 @@ func (f *FragmentBuffer) pushHandshakeFragments(
 			continue
 		}
 
+		if f.totalFragmentCount >= fragmentBufferMaxCount {
+			// one record can carry many (empty) fragments: enforce the cap per fragment
+			return false, false, dtlserrors.ErrFragmentBufferOverflow
+		}
+
 		messageFragments, ok := f.cache[frag.handshakeHeader.MessageSequence]
 		if !ok {
 			messageFragments = &fragments{
